@@ -15,7 +15,7 @@ PID = "C07"
 
 TRUSTED = [
     "Coq 8.16.1 kernel (vm_compute in two Examples; no native_compute)",
-    "axioms: none (Print Assumptions: Closed under the global context for all 13 theorems)",
+    "axioms: none (Print Assumptions: Closed under the global context for all theorems)",
     "extraction: ExtrOcamlBasic only; nat/Z/positive/Q stay Coq datatypes",
     "OCaml glue ocaml/core_main.ml + common.ml; C++ drivers harness/tsgdrv.cpp, harness/unitdrv.cpp (white-box via #define private public, read-only)",
     "modelled, not verified: MultiIndexSet::{addSortedIndexes,operator-,getSlot,removeIndex,sorting ctor}, StorageSet::addValues, "
